@@ -2,6 +2,7 @@
 import json, os, sys, time
 
 VERIF = os.path.dirname(os.path.dirname(os.path.abspath(__file__)))
+THOROUGH = None   # set by thorough.prepare(): configuration agreement + positive controls, merged into the evidence
 
 
 class AnchorMissing(Exception):
@@ -61,6 +62,10 @@ class Check:
 
     # ---- finishing --------------------------------------------------------------------
     def finish(self, explanation, checker_cmd=None):
+        if THOROUGH:
+            for cfg, k in THOROUGH.get('extra_violations', []):
+                self.fail('CONFIG-' + cfg, k, 'violation that is only derived in the %s configuration of the crate: %s' % (cfg, k))
+            self.extra['thorough'] = {k: v for k, v in THOROUGH.items() if k != 'extra_violations'}
         wall = time.time() - self.t0
         new_viol = []
         for v in self.violations:
